@@ -15,7 +15,7 @@
 (* The graph and all parameters are chosen in Init (the bounded families   *)
 (* of DESIGN 3.2) and never change during a behaviour.                     *)
 (***************************************************************************)
-EXTENDS N2Graph, TLC
+EXTENDS N2Sched, TLC
 
 CONSTANTS
   N,        \* number of steps
@@ -41,8 +41,8 @@ vars == <<g, par, st, ready, queued, poolRun, nrun, pending, counts, failsLeft,
           tasksFailed, tasksRun, pc, obs>>
 
 Steps == 1..N
-States == {"Unknown", "Want", "Ready", "Queued", "Running", "Done", "Failed"}
-Counted == States \ {"Unknown"}
+States == SchedStates
+Counted == SchedCounted
 Terminal == {"ok", "failed", "error", "BUG"}
 
 Name(prefix, i) == prefix \o ToString(i)
@@ -136,22 +136,15 @@ Init ==
     /\ obs = [started |-> {}, finOK |-> {}, finFail |-> {}, intr |-> {}, run |-> {}]
 
 ---------------------------------------------------------------------------
-\* BuildStates::set for a set of simultaneous changes (new: step -> new state).
+\* BuildStates::set for a set of simultaneous changes (new: step -> new state): the shared
+\* transformer of N2Sched applied to this module's variables.
+IV == [st |-> st, ready |-> ready, pending |-> pending, counts |-> counts]
 SetStates(new) ==
-  /\ st' = [s \in Steps |-> IF s \in DOMAIN new THEN new[s] ELSE st[s]]
-  /\ counts' = [x \in Counted |->
-                  (counts[x] + Cardinality({s \in DOMAIN new : ~IsPhony(g, s) /\ new[s] = x}))
-                  - Cardinality({s \in DOMAIN new : ~IsPhony(g, s) /\ st[s] = x})]
-  /\ pending' = (pending + Cardinality({s \in DOMAIN new : st[s] = "Unknown"}))
-                - Cardinality({s \in DOMAIN new : new[s] \in {"Done", "Failed"}})
-  /\ ready' = (ready \ DOMAIN new) \cup {s \in DOMAIN new : new[s] = "Ready"}
+  LET r == SchedSet(g, IV, new)
+  IN /\ st' = r.st /\ counts' = r.counts /\ pending' = r.pending /\ ready' = r.ready
 
-\* Work::ready_dependents: s becomes Done; Want steps that list one of its outputs among
-\* any of their inputs become Ready when all producers of their ordering inputs are Done.
-Promoted(s) ==
-  {d \in Steps : /\ st[d] = "Want"
-                 /\ Outs(g, s) \cap AllIns(g, d) # {}
-                 /\ \A p \in OrdProd(g, d) : p = s \/ st[p] = "Done"}
+\* Work::ready_dependents.
+Promoted(s) == SchedPromoted(g, st, s)
 
 DoneAndPromote(s) ==
   SetStates([x \in {s} \cup Promoted(s) |-> IF x = s THEN "Done" ELSE "Ready"])
@@ -168,7 +161,7 @@ Want ==
           THEN /\ pc' = "error"
                /\ UNCHANGED <<st, ready, counts, pending>>
           ELSE /\ SetStates([s \in fresh |->
-                     IF \A p \in OrdProd(g, s) : st[p] = "Done" THEN "Ready" ELSE "Want"])
+                     IF SchedReadyNow(g, st, s) THEN "Ready" ELSE "Want"])
                /\ pc' = IF pc = "want1" THEN "run1" ELSE "run2"
   /\ UNCHANGED <<g, par, queued, poolRun, nrun, failsLeft, tasksFailed, tasksRun, obs>>
 
@@ -202,7 +195,7 @@ ErrUnknownPool(s) ==
   /\ UNCHANGED <<g, par, st, ready, queued, poolRun, nrun, pending, counts, failsLeft,
                  tasksFailed, tasksRun, obs>>
 
-PoolHasRoom(q) == PoolDepth(g, q) = 0 \/ poolRun[q] < PoolDepth(g, q)
+PoolHasRoom(q) == SchedPoolHasRoom(g, poolRun, q)
 
 \* pop_queued + Runner::start.
 StartQueued(s) ==
@@ -333,6 +326,7 @@ C19 == /\ \A x \in Counted : counts[x] = Cardinality({s \in Steps : ~IsPhony(g, 
        /\ (pc \in {"run1", "run2"} => counts["Failed"] = Cardinality(obs.finFail))
        /\ tasksRun = Cardinality(obs.finOK)
 Bookkeeping ==
+  /\ SchedConsistent(g, IV)
   /\ pending = Cardinality({s \in Steps : st[s] \in {"Want", "Ready", "Queued", "Running"}})
   /\ ready = {s \in Steps : st[s] = "Ready"}
   /\ \A q \in Pools : queued[q] = {s \in Steps : st[s] = "Queued" /\ PoolOf(g, s) = q}
@@ -340,6 +334,9 @@ Bookkeeping ==
          poolRun[q] = Cardinality({s \in obs.run : PoolOf(g, s) = q}))
   /\ (pc \in {"run1", "run2"} => nrun = Cardinality(obs.run))
 C19Monotone == [][counts'["Done"] + counts'["Failed"] >= counts["Done"] + counts["Failed"]]_vars
+
+\* every change of a step's state is one of the transitions BuildStates::set is asked to make
+LegalTransitions == [][\A s \in Steps : st'[s] # st[s] => <<st[s], st'[s]>> \in SchedLegal]_vars
 
 TypeOK == /\ st \in [Steps -> States] /\ pc \in {"want1", "run1", "want2", "run2"} \cup Terminal
 =============================================================================
